@@ -997,6 +997,9 @@ class FormulaManager(object):
         if not is_python_integer(count) or count < 1:
             raise PysmtValueError("BVRepeat: 'count' should be a positive " \
                                   "integer. Got %s" % str(count))
+        if not self.env.stc.get_type(formula).is_bv_type():
+            raise PysmtTypeError("BVRepeat: the operand should be a " \
+                                 "bit-vector. Got %s" % str(formula))
         res = formula
         for _ in range(count-1):
             res = self.BVConcat(res, formula)
